@@ -139,6 +139,23 @@ func CheckFail(src string) tsrc.Outcome {
 	return o
 }
 
+// judgeDir is the C09 oracle of a directory job: every file must be what
+// formatting it alone gives, and a second `templ fmt <dir>` must change nothing.
+func judgeDir(j tsrc.DirJob, res tsrc.DirResult, single func(string) (string, error)) (string, string) {
+	if res.Err1 != nil || res.Err2 != nil {
+		return "run-error", fmt.Sprintf("templ fmt <dir> fails although every file formats alone: %v / %v", res.Err1, res.Err2)
+	}
+	for i, f := range j.Files {
+		if alone, err := single(f.Src); err == nil && alone != res.After1[i] {
+			return "not-single", fmt.Sprintf("file %d of %d (workers=%d) is %s after the run, formatted alone it is %s", i+1, len(j.Files), j.Workers, core.Q(clip(res.After1[i], 300)), core.Q(clip(alone, 300)))
+		}
+		if res.After2[i] != res.After1[i] {
+			return "second-run-changes", fmt.Sprintf("file %d of %d (workers=%d): the second run rewrites %s as %s", i+1, len(j.Files), j.Workers, core.Q(clip(res.After1[i], 300)), core.Q(clip(res.After2[i], 300)))
+		}
+	}
+	return "", ""
+}
+
 // CheckSave is the oracle of format-on-save for one whole file x:
 //
 //  1. x counts if `templ generate` accepts it and `templ fmt <file>` (CheckFile's
@@ -268,6 +285,9 @@ func Run(c *core.Ctx) {
 		vprogs = append(vprogs, tsrc.Prog{Origin: "savecell:" + cl.Name, Src: cl.Src})
 	}
 	rv.RunFile(vprogs)
+
+	// several files in one `templ fmt <dir>` run, and a second run over the same directory
+	tsrc.RunDirJobs(c, "templ fmt <dir> is not stable", func(src string) bool { return CheckFile(src).Class == "" }, judgeDir)
 
 	// format-on-save through the LSP server
 	c.Assume("format-on-save is driven in-process: proxy.NewServer without gopls, document opened with TemplSource.Set, Server.Formatting called with an editor stub; the returned TextEdits are applied to the original text by the harness's own LSP client model (lines split at LF, UTF-16 characters, positions beyond the end clamp) — never by proxy.Document")
